@@ -129,7 +129,7 @@ func SpecStream(i int) byte { panic("abstract spec function") }
 //@   ghost var unread mathint
 //@   requires nonnil: d != nil && d.r != nil
 //@   requires depth: depth >= 0
-//@   modifies d.offset, pos
+//@   modifies d.offset, pos, unread
 //@   ensures offset: result1 == nil ==> d.offset - old(d.offset) == pos - old(pos)
 //@   ensures unread_same: unread == old(unread)
 //@   loop 1:
@@ -167,4 +167,5 @@ func SpecStream(i int) byte { panic("abstract spec function") }
 //@   ghost var pos mathint
 //@   ghost var unread mathint
 //@   requires nonnil: d != nil && d.r != nil
+//@   modifies d.offset, pos, unread
 //@   ensures end_offset: result2 == nil ==> result1 == d.offset && result1 - old(d.offset) == (pos - old(pos)) + (unread - old(unread))
